@@ -1,8 +1,9 @@
 """C14 — the generic parse tree is lossless: tokens and layout reconstruct the input."""
 import json
 import random
+import re
 
-from common import lean_obligations, build_harness
+from common import lean_obligations, build_harness, hx, load_findings
 import lrfamily as lf
 import treeparse as tp
 import oracles
@@ -10,10 +11,45 @@ import oracles
 LEVEL = "proof"
 PROP_MODULE = "Rustemo.Props.C14"
 
+N1 = "C14-N1-relex-layout-discarded"
+N2 = "C14-N2-failed-layout-advances"
+
+# the stored layout is a sentence of the Layout rule (kinds of tools/gram.py)
+LAYOUT_RE = {"ws": re.compile(r"\s+\Z"), "comments": re.compile(r"(?:\s+|//[^\n]*)*\Z")}
+
+
+def layout_kind_of(c):
+    k = c.gram.layout if c.gram is not None else None
+    if k is None and "Layout:" in c.text:
+        k = "user"
+    return k
+
+
+def nested_ok(s):
+    """loose check for the nested-comment Layout: whitespace, // line comments, balanced /* */ blocks"""
+    i, depth = 0, 0
+    while i < len(s):
+        if s.startswith("/*", i):
+            depth += 1
+            i += 2
+        elif s.startswith("*/", i) and depth > 0:
+            depth -= 1
+            i += 2
+        elif depth > 0:
+            i += 1
+        elif s[i].isspace():
+            i += 1
+        elif s.startswith("//", i):
+            j = s.find("\n", i)
+            i = len(s) if j < 0 else j
+        else:
+            return False
+    return depth == 0
+
 
 def oracle(c):
     bad = []
-    layout_kind = c.gram.layout if c.gram is not None else None
+    layout_kind = layout_kind_of(c)
     shapes = {}
     for k, ((algo, partial, inp, meta), res) in enumerate(zip(c.inputs, c.results)):
         toks = tuple(meta.get("toks", ())) if meta else ()
@@ -31,6 +67,21 @@ def oracle(c):
         rest = data[len(out):] if data.startswith(out) else b""
         if not probs and partial == "0" and layout_kind is None and not oracles.is_ws(rest):
             probs.append(f"unconsumed non-layout tail {rest!r}")
+        # the stored layout is a sentence of the Layout rule
+        if not probs and layout_kind in ("ws", "comments", "nested"):
+            for lfn in tp.leaves(t):
+                lay = lfn["lay"]
+                if lay is None or lay[0] == "ext":
+                    continue
+                try:
+                    ls = data[lay[0]:lay[0] + lay[1]].decode()
+                except UnicodeDecodeError:
+                    probs.append("stored layout is not on character boundaries")
+                    break
+                good = nested_ok(ls) if layout_kind == "nested" else bool(LAYOUT_RE[layout_kind].match(ls))
+                if not good or not ls:
+                    probs.append(f"stored layout {ls!r} is not a sentence of the Layout rule ({layout_kind})")
+                    break
         if probs:
             bad.append((k, "; ".join(probs[:2])))
         shapes.setdefault(toks, []).append((k, tp.shape(t)))
@@ -53,6 +104,94 @@ def gen(rng, tier):
     return cases
 
 
+# ---------------------------------------------------------------------------------------------
+# directed family: content tokens that share a prefix with layout, LALR-merged lookaheads, layout
+# rules that can fail half way or are not idempotent (the classes of C14-N1 / C14-N2)
+# ---------------------------------------------------------------------------------------------
+
+def collide_templates(rng):
+    a, x, y, cc = rng.sample("abdefghkmnpqtuvxyz", 4)
+    out = []
+    # (1) `/` division vs `//` line comments; state after `a` has the merged lookaheads {X, Div}
+    g = (f"S: A X | C A Div Y;\nA: Ta;\nLayout: LayoutItem*;\nLayoutItem: WS | CommentLine;\nterminals\n"
+         f"Ta: '{a}';\nX: '{x}';\nY: '{y}';\nC: '{cc}';\nDiv: '/';\nWS: /\\s+/;\nCommentLine: /\\/\\/.*/;\n")
+    out.append((g, [[a, x], [cc, a, "/", y], [a, "/", y], [cc, a, x]], ["", " ", "//c\n", " // c\n", "\n", "  "], ("0", "1")))
+    # (2) `#` token vs `##` layout word
+    g = (f"S: A X | C A D;\nA: Ta;\nLayout: L;\nterminals\nTa: '{a}';\nX: '{x}';\nC: '{cc}';\nD: '#';\nL: '##';\n")
+    out.append((g, [[a, x], [cc, a, "#"], [a, "#"], [cc, a, x]], ["", "##", "#", "####"], ("0", "1")))
+    # (3) a one-space token vs whitespace layout
+    g = (f"S: A X | C A Sp Y;\nA: Ta;\nLayout: LayoutItem+;\nLayoutItem: WS;\nterminals\n"
+         f"Ta: '{a}';\nX: '{x}';\nY: '{y}';\nC: '{cc}';\nSp: ' ';\nWS: /\\s+/;\n")
+    out.append((g, [[a, x], [cc, a, " ", y], [a, " ", y]], ["", " ", "\n", "  ", "\t"], ("0", "1")))
+    # (4) bracketed layout that can fail half way (partial parse continues behind the failed layout)
+    g = (f"S: A Bopt;\nA: Ta;\nBopt: Tb | EMPTY;\nLayout: LP WS RP;\nterminals\n"
+         f"Ta: '{a}';\nTb: '{x}';\nLP: '(';\nWS: /\\s+/;\nRP: ')';\n")
+    out.append((g, [[a, x], [a], [a, x, x]], ["", "( )", "( ", "(  ", "(", "( )( )"], ("0", "1")))
+    # (5) a Layout rule that is not idempotent: `ab` or `a`, greedy on the first token only
+    g = (f"S: A Bopt;\nA: Ta;\nBopt: Tb | EMPTY;\nLayout: LA LB | LA;\nterminals\n"
+         f"Ta: 't';\nTb: 'b';\nLA: 'a';\nLB: 'b';\n")
+    out.append((g, [["t", "b"], ["t"]], ["", "a", "ab", "aab", "aa"], ("0", "1")))
+    # (6) nested comments, unclosed at the end (the layout parser fails at the end of input only)
+    g = (f"S: A Bopt;\nA: Ta;\nBopt: Tb | EMPTY;\nLayout: LayoutItem*;\nLayoutItem: WS | Comment;\n"
+         f"Comment: '/*' Corncs '*/';\nCorncs: Cornc*;\nCornc: Comment | NotComment | WS;\nterminals\n"
+         f"Ta: '{a}';\nTb: '{x}';\nWS: /\\s+/;\nCommentStart: '/*';\nCommentEnd: '*/';\n"
+         f"NotComment: /((\\*[^\\/])|[^\\s*\\/]|\\/[^\\*])+/;\n")
+    out.append((g, [[a, x], [a]], ["", " ", "/* c */", "/* c", " /* a /* b */", "/**/ "], ("0", "1")))
+    return out
+
+
+def collide_cases(rng, tier):
+    cases = []
+    reps = 2 if tier == "quick" else 12
+    uid = 0
+    for _ in range(reps):
+        for (g, seqs, pool, partials) in collide_templates(rng):
+            for tt in ("LALR", "LALR_PAGER"):
+                st = ["LR", tt, "-", "-", "-", "-", "-", "-", "-", "-"]
+                inputs = []
+                seen = set()
+                for seq in seqs:
+                    for _k in range(6 if tier == "quick" else 12):
+                        s = "".join(rng.choice(pool) + tok for tok in seq) + rng.choice(pool)
+                        for p in partials:
+                            if (s, p) in seen:
+                                continue
+                            seen.add((s, p))
+                            uid += 1
+                            # layout may be lexable as a token here: outside the insertion-invariance statement
+                            inputs.append(("LR", p, s, {"toks": ("collide", uid), "kind": "collide", "ws": "collide"}))
+                cases.append(lf.Case(g, st, inputs, gram=None, tag="collide"))
+    return cases
+
+
+# ---------------------------------------------------------------------------------------------
+# LayoutCert: the executable hypothesis of C14_roundtrip_layout, evaluated per input by the driver
+# ---------------------------------------------------------------------------------------------
+
+def extra_requests(c):
+    reqs = ["cert noshiftstop", "cert structural 0 0"]
+    c.lc_idx = []
+    if c.dump is not None and "Layout:" in c.text:
+        for k, ((algo, partial, inp, _m), mat) in enumerate(zip(c.inputs, c.matrices)):
+            if c.results[k].startswith("skipped") or c.results[k] == "notable":
+                continue
+            c.lc_idx.append(k)
+            reqs.append(f"layoutcert {hx(inp)} #{mat}")
+    return reqs
+
+
+def layoutcerts(c):
+    """input index -> dict(static, nottoken, idem, failstays, ok) or None"""
+    out = {}
+    ex = getattr(c, "extra", None) or []
+    for k, a in zip(getattr(c, "lc_idx", []), ex[2:]):
+        if not a.startswith("layoutcert ls="):
+            out[k] = None
+            continue
+        out[k] = {kv.split("=")[0]: kv.split("=")[1] == "1" for kv in a.split(" ")[2:]}
+    return out
+
+
 def run(rep, tier, seed):
     rng = random.Random(seed)
     proofs_ok = lean_obligations(rep, PROP_MODULE)
@@ -62,9 +201,9 @@ def run(rep, tier, seed):
         rep.violation({"broken": "harness build", "log": log[-3000:]}, no_input=True)
         return
     fixed = lf.replay_known(rep, "C14", oracle)
-    cases = fixed + gen(rng, tier)
+    cases = fixed + gen(rng, tier) + collide_cases(rng, tier)
     lf.add_histories(rng, cases)
-    lf.run_cases(cases, extra_requests=lambda c: ["cert noshiftstop", "cert structural 0 0"])
+    lf.run_cases(cases, extra_requests=extra_requests)
     check(rep, cases, proofs_ok)
 
 
@@ -72,27 +211,72 @@ def check(rep, cases, proofs_ok):
     rep.cov["rule"] = ("random BNF grammars x {default whitespace skipping, Layout rule: whitespace / + line comments / + nested "
                        "block comments}; LR LALR_PAGER; inputs: strings up to length 3, sentences, mutations, rendered with "
                        "whitespace, newline, CRLF, NBSP and comment insertions between tokens (only where the inserted layout "
-                       "is not itself lexable as a token); distinct = (grammar, settings, input)")
+                       "is not itself lexable as a token); + directed family `collide`: content tokens sharing a prefix with "
+                       "layout (`/` vs `//`, `#` vs `##`, ' ' vs whitespace), LALR-merged lookaheads, Layout rules that fail "
+                       "half way / are not idempotent, partial parse on and off; per Layout input the driver evaluates "
+                       "LayoutCert (hypothesis of C14_roundtrip_layout); distinct = (grammar, settings, input)")
+    known_keys = {f["key"] for f in load_findings() if f.get("status") == "known" and f.get("property") == "C14"}
+    certs = {}
+    unavailable = 0
     for c in cases:
-        rep.count("layout_kind:" + str(c.gram.layout if c.gram else None))
+        rep.count("layout_kind:" + str(layout_kind_of(c)) + (":" + c.tag if c.tag == "collide" else ""))
+        lc = layoutcerts(c)
+        certs[id(c)] = lc
+        for k, v in lc.items():
+            fam = "collide" if c.tag == "collide" else "generated"
+            if v is None:
+                unavailable += 1
+                continue
+            rep.count(f"layoutcert:{fam}:" + ("holds" if v["ok"] else "fails"))
+            for part in ("static", "nottoken", "idem", "failstays"):
+                if not v[part]:
+                    rep.count(f"layoutcert:{fam}:{part}=0")
+            if v["ok"] and k < len(c.results) and lf.klass(c.results[k]) == "ok":
+                rep.count(f"layoutcert:{fam}:ok_parse_inside_theorem")
+            elif k < len(c.results) and lf.klass(c.results[k]) == "ok":
+                rep.count(f"layoutcert:{fam}:ok_parse_outside_theorem(oracle only)")
+    if any(certs[id(c)] for c in cases):
+        rep.oblige("driver command layoutcert answers for every Layout input", unavailable == 0,
+                   f"{unavailable} unanswered (Main.lean lacks the `layoutcert` dispatch line?)")
+
+    def known_class(c, k, why):
+        """a lost-bytes failure is inside C14-N1 / C14-N2 iff the Lean predicate LayoutCert is false for this
+        input in the sub-condition of that class (and the finding is listed as known)"""
+        if k is None or "reconstruct" not in why:
+            return None
+        v = certs[id(c)].get(k)
+        if not v or v["ok"] or not v["static"]:
+            return None
+        partial = c.inputs[k][1]
+        if not v["failstays"] and partial == "1" and N2 in known_keys:
+            return N2
+        if (not v["nottoken"] or not v["idem"]) and N1 in known_keys:
+            return N1
+        return None
+
     def orc(c):
         bad = oracle(c)
         ex = getattr(c, "extra", None)
         if ex:
-            okc = all(x == "1" for x in ex)
+            okc = all(x == "1" for x in ex[:2])
             rep.count("certs_" + ("pass" if okc else "FAIL"))
             if not okc:
                 bad.append((None, "Cert.noShiftStop / Cert.structural fail on the compiler's table: hypotheses of C14_roundtrip not met"))
         return bad
     lf.evaluate(rep, cases, orc, proofs_ok, PROP_MODULE,
-                in_scope=lambda c: tp.parse_dump(c.dump)["conflicts"] == 0)
+                in_scope=lambda c: tp.parse_dump(c.dump)["conflicts"] == 0, known_class=known_class)
 
 
 def replay(rep, path):
     p = json.load(open(path))
     build_harness()
-    g = lf.parse_bnf(p["grammar"])
-    c = lf.Case(p["grammar"], p["settings"].split(" "), [("LR", p.get("partial", "0"), p.get("input", ""), {"toks": ()})], gram=g)
+    try:
+        g = lf.parse_bnf(p["grammar"])
+        g.layout = None
+    except Exception:
+        g = None
+    c = lf.Case(p["grammar"], p["settings"].split(" "), [("LR", p.get("partial", "0"), p.get("input", ""), {"toks": ()})],
+                gram=g, tag=p.get("tag", ""))
     lf.apply_replay_history(c, p)
-    lf.run_cases([c], extra_requests=lambda c: ["cert noshiftstop", "cert structural 0 0"])
+    lf.run_cases([c], extra_requests=extra_requests)
     check(rep, [c], True)
